@@ -26,6 +26,13 @@ def run(tier, seed, work, replay):
         cases.append({"world": "tokens", "ops": [a, b], "maxsched": 40 if tier == "quick" else 300})
     for a, b in itertools.combinations_with_replacement(BOOT_OPS, 2):
         cases.append({"world": "bootstrap", "ops": [a, b], "maxsched": 40 if tier == "quick" else 300})
+    # the exploration starts with the first request running alone and is cut off after maxsched schedules: the pairs once
+    # more the other way round, so that "the second one entirely before the first" is among the schedules too (what a
+    # request leaves behind when it answers lands late: see lateFor in the harness)
+    for a, b in itertools.combinations(TOK_OPS, 2):
+        cases.append({"world": "tokens", "ops": [b, a], "maxsched": 4 if tier == "quick" else 30})
+    for a, b in itertools.combinations(BOOT_OPS, 2):
+        cases.append({"world": "bootstrap", "ops": [b, a], "maxsched": 4 if tier == "quick" else 30})
     for a in ("u2f_disable", "u2f_delete", "totp_disable", "totp_delete"):
         for b in ("totp_auth", "u2f_auth", "totp_rename", "u2f_rename"):
             cases.append({"world": "tokens", "ops": [a, b], "degraded": True})
